@@ -13,6 +13,7 @@ func init() {
 				{Dir: "container", Func: "VerifC11MapSetNaN", Opts: o},
 				{Dir: "container", Func: "VerifC11SortedSliceSet", Opts: o},
 				{Dir: "container", Func: "VerifC11SortedNew", Opts: o},
+				{Dir: "container", Func: "VerifC11CloneIndependent", Opts: o},
 				{Dir: "container", Func: "VerifC11RingBuffer", Opts: o},
 			}
 		},
@@ -24,6 +25,7 @@ func init() {
 					"RingBuffer[int]":            "capacity 0..4, 1..6 operations over Push (symbolic non-zero values)/Clear; Range (early stop 0..3), ReverseRange, Len, Current compared with the last min(k,n) values",
 					"MapSet[float64]":            "one concrete scenario with a NaN element (a key not equal to itself): Add, Clear, Len, Values, Range, Equal",
 					"SortedSliceSet constructor": "0..5 arbitrary values in 0..3 in arbitrary order (duplicates anywhere), then one Delete; all observers",
+					"SortedSliceSet clone":       "a set built from 0..2 values, optionally Cleared or shrunk by one Delete (storage kept), cloned; one Add/Delete on the clone and one on the origin in either order (values 0..2); all observers of both against their own models",
 					"append":                     "every append inside the container code that has to grow gets 0 or 1 spare slots (aliasing through spare capacity is visible)",
 				}
 			}
@@ -33,6 +35,7 @@ func init() {
 				"RingBuffer[int]":            "capacity 0..3, 1..5 operations over Push (symbolic non-zero values)/Clear; Range (early stop), ReverseRange, Len, Current",
 				"MapSet[float64]":            "one concrete scenario with a NaN element (a key not equal to itself): Add, Clear, Len, Values, Range, Equal",
 				"SortedSliceSet constructor": "0..4 arbitrary values in 0..3 in arbitrary order (duplicates anywhere), then one Delete; all observers",
+				"SortedSliceSet clone":       "a set built from 0..2 values, optionally Cleared or shrunk by one Delete (storage kept), cloned; one Add/Delete on the clone and one on the origin in either order (values 0..2); all observers of both against their own models",
 				"append":                     "every growing append inside the container code gets 0 or 1 spare slots",
 			}
 		},
